@@ -7,9 +7,11 @@ import (
 	"fmt"
 	"hash/fnv"
 	"os"
+	"path/filepath"
 	"strconv"
 	"strings"
 	"testing"
+	"unicode"
 
 	"pgregory.net/rapid"
 
@@ -101,6 +103,9 @@ func DeriveSeed(name string) uint64 {
 func Check(t *testing.T, quick, thorough int, prop func(*rapid.T)) {
 	t.Helper()
 	if ff := os.Getenv("VERIF_REPLAY"); ff != "" {
+		if safeName(t.Name()) != filepath.Base(filepath.Dir(ff)) {
+			t.Skip("not the test whose fail file is being replayed")
+		}
 		_ = flag.Set("rapid.failfile", ff)
 	}
 	_ = flag.Set("rapid.checks", strconv.Itoa(N(quick, thorough)))
@@ -121,4 +126,17 @@ func Inconclusivef(t testing.TB, format string, args ...any) {
 	t.Helper()
 	fmt.Printf("HARNESS-INCONCLUSIVE: "+format+"\n", args...)
 	t.Fatalf("harness inconclusive: "+format, args...)
+}
+
+// safeName mirrors how rapid derives the fail-file directory from a test name.
+func safeName(f string) string {
+	var sb strings.Builder
+	for _, r := range f {
+		if unicode.IsLetter(r) || unicode.IsDigit(r) || r == '-' || r == '_' {
+			sb.WriteRune(r)
+		} else {
+			sb.WriteRune('_')
+		}
+	}
+	return sb.String()
 }
